@@ -224,11 +224,13 @@ let parse_ll (rest : S.t list) : nat list list =      (* tokens of "[a b c] [d]"
       if closes then (out := L.rev !cur :: !out; inside := false)) rest;
   L.rev !out
 
-let default_alloc = z_of_string "4294967296"
+(* the model's allocation limit: small, so that no count-driven loop of the extracted code (unary nat, quadratic list
+   operations of the kernel model) runs long; lib/checks_ascii.py treats the range between this and the real limit *)
+let default_alloc = z_of_string "65536"
 
 let run_read (c : case) =
   let o = { o_mesh = (match c.mesh with "tet" -> MTet | "hex" -> MHex | _ -> MPoly); o_check = c.check <> 0; o_bu = c.bu <> 0;
-            o_alloc = (if c.aslimit > 0 then z_of_string (string_of_int (c.aslimit * 1048576)) else default_alloc) } in
+            o_alloc = default_alloc } in
   let st f = if c.api = "path" then "-" else bits_of f.f_is in
   match read_ascii conv_d conv_f o (zbytes c.bytes) with
   | RTrue f -> pr "result=true st=%s\n" (st f); mesh_block f false true
@@ -289,7 +291,9 @@ let run_encode (c : case) =
 let run_case (c : case) =
   pr "== %s\n" c.id;
   (try (match c.mode with "read" -> run_read c | "encode" -> run_encode c | _ -> pr "# mode %s not handled by the model driver\n" c.mode)
-   with Stdlib.Failure m -> pr "!! DRIVER %s\n" m | Stdlib.Not_found -> pr "!! DRIVER not_found\n");
+   with Stdlib.Failure m -> pr "!! DRIVER %s\n" m | Stdlib.Not_found -> pr "!! DRIVER not_found\n"
+      | Stdlib.Stack_overflow -> B.clear buf; pr "== %s\n!! DRIVER stack_overflow\n" c.id
+      | Stdlib.Out_of_memory -> B.clear buf; pr "== %s\n!! DRIVER out_of_memory\n" c.id);
   flush_out ()
 
 let run_file (ic : Stdlib.in_channel) =
